@@ -358,6 +358,14 @@ def run(ctx):
                     for k in rng.sample([m for m in multi_pool if m.startswith("mod_")], rng.randrange(1, 5)):
                         o[k] = rng.choice(option_values(k, reg[k]))
                 jobs.append(pipeline.Job("multi", sc.cfg(None, o), p, lang, {"opts": o, "text": txt, "kind": "multi"}))
+            # every spacing option = remove (only the fusion guard of space_text() keeps tokens apart), with a few bool options flipped
+            for _ in range(4 if thorough else 2):
+                o = {k: "remove" for k in multi_pool if k.startswith("sp_") and reg[k]["kind"] == "iarf" and not k.startswith("sp_cmt_cpp")}
+                for k in rng.sample([b for b in multi_pool if reg[b]["kind"] == "bool" and b.startswith(("sp_", "nl_", "indent_"))], 6):
+                    o[k] = "true"
+                if rng.random() < 0.7:
+                    o["sp_permit_cpp11_shift"] = "true"
+                jobs.append(pipeline.Job("remove-all", sc.cfg(None, o), p, lang, {"opts": o, "text": txt, "kind": "remove-all"}))
         ctx.log("programs: %d, runs: %d" % (len(progs), len(jobs)))
         pipeline.run_jobs(exe, jobs, hooks=False, timeout=5)
 
@@ -399,10 +407,21 @@ def run(ctx):
                 jj = pipeline.Job("min", sc.cfg(None, o), j.inp, j.lang, {"opts": o, "text": j.meta["text"]})
                 pipeline.run_jobs(exe, [jj], hooks=False, timeout=5)
                 return judge(jj)[0] in ("exit", "compile-error", "object-differs")
-            for k in list(opts):
-                o2 = {a: b for a, b in opts.items() if a != k}
-                if len(opts) > 1 and fails(o2):
-                    opts = o2
+            keys = list(opts)
+            n = 2
+            while len(keys) >= 2:            # delta debugging over the option set
+                chunk = (len(keys) + n - 1) // n
+                reduced = False
+                for i in range(0, len(keys), chunk):
+                    cand = keys[:i] + keys[i + chunk:]
+                    if cand and fails({a: opts[a] for a in cand}):
+                        keys, n, reduced = cand, max(n - 1, 2), True
+                        break
+                if not reduced:
+                    if n >= len(keys):
+                        break
+                    n = min(len(keys), n * 2)
+            opts = {a: opts[a] for a in keys}
             hang = v == "exit" and "timeout" in msg
             key = {"symptom": "hang" if hang else v, "opts": {k: (">0" if k == "mod_infinite_loop" else _optclass(x, hang)) for k, x in sorted(opts.items())}}
             # token-level cause under whitespace-only options: which two tokens were fused
